@@ -23,10 +23,22 @@
 (* few malformed ones (Gen_Malformed's mutations) at the position where    *)
 (* the confirmed crashers belong, so that they meet the driver's real      *)
 (* goroutines.  Oracle: spec/Trace_Malformed.tla.                          *)
+(*                                                                         *)
+(* Round 2.  (1) The frame-level malformations of Gen_Malformed (header    *)
+(* version / flags / opcode / length, compression without a compressor,    *)
+(* body cut at field boundaries, counts and lengths off) are also          *)
+(* delivered as the ANSWER to each request kind on the live connection, so *)
+(* that Conn.recv / Conn.exec and the goroutine of the caller see them.    *)
+(* (2) Multi-step positions: the second page of a paged result, the        *)
+(* PREPARE a driver sends again after UNPREPARED and the EXECUTE after it, *)
+(* a second answer on a stream already answered, an answer that arrives    *)
+(* after the caller gave up - each with any well-formed frame, in          *)
+(* particular rows / prepared metadata that differ from the first step.    *)
+(* (3) A concurrent position: two callers execute the same prepared        *)
+(* statement; the first EXECUTE is answered UNPREPARED, and while the      *)
+(* driver's new PREPARE is unanswered the second EXECUTE gets any frame.   *)
 (***************************************************************************)
-EXTENDS Gen_WireResp
-
-CONSTANT Tier
+EXTENDS Gen_Malformed      \* (brings Gen_WireResp, the annotated encoder and its mutations; CONSTANTS Tier, Part; VARIABLE p)
 
 PV == 4     \* protocol version of the live sessions
 
@@ -46,7 +58,8 @@ Req(pos) ==
     [] pos = "ctl.register" -> "REGISTER"
     [] pos \in {"ctl.query_local", "ctl.refresh_local", "ctl.refresh_peers", "pool.use", "app.query"} -> "QUERY"
     [] pos \in {"app.prepare", "app.batch_prepare"} -> "PREPARE"
-    [] pos = "app.execute" -> "EXECUTE"
+    [] pos \in {"app.execute", "app.execute2", "app.page1", "app.page2", "conc.execute1", "conc.execute2"} -> "EXECUTE"
+    [] pos = "app.prepare2" -> "PREPARE"
     [] pos = "app.batch" -> "BATCH"
     [] OTHER -> "NONE"     \* unsolicited.*
 \* what the protocol allows as an answer (section 4.1: "the server will respond by ...")
@@ -78,18 +91,31 @@ Legit(cfg, pos) ==
     [] pos = "pool.auth_response" -> IF cfg = "chain" THEN {<<"AUTH_CHALLENGE", "pool.auth_response2">>} ELSE {<<"AUTH_SUCCESS", "idle">>}
     [] pos = "pool.auth_response2" -> {<<"AUTH_SUCCESS", "idle">>}
     [] pos = "pool.use" -> {<<"RESULT_KEYSPACE", "idle">>}
-    [] pos = "app.prepare" -> {<<"RESULT_PREPARED", "app.execute">>}
+    [] pos = "app.prepare" -> {<<"RESULT_PREPARED", "app.execute">>, <<"RESULT_PREPARED", "app.page1">>, <<"RESULT_PREPARED", "conc.execute1">>}
+    [] pos = "app.execute" -> {<<"ERROR", "app.prepare2">>}                    \* UNPREPARED: the driver prepares again
+    [] pos = "app.prepare2" -> {<<"RESULT_PREPARED", "app.execute2">>}
+    [] pos = "app.page1" -> {<<"RESULT_ROWS", "app.page2">>}                   \* has_more_pages: the driver asks for the next page
+    [] pos = "conc.execute1" -> {<<"ERROR", "conc.execute2">>}                 \* UNPREPARED for the first of two callers
     [] pos = "app.batch_prepare" -> {<<"RESULT_PREPARED", "app.batch">>}
     [] OTHER -> {}     \* the other requests end where they started: the session is idle again
 \* what may happen next in an established, idle session
 FromIdle == {"app.query", "app.prepare", "app.batch", "app.batch_prepare", "pool.heartbeat", "ctl.conn_heartbeat", "ctl.heartbeat",
-             "unsolicited.event", "unsolicited.stream0", "unsolicited.unused_stream"}
+             "unsolicited.event", "unsolicited.stream0", "unsolicited.unused_stream",
+             \* a second frame on the stream of a request that has been answered / whose caller has given up
+             "app.query.second_answer", "app.execute.second_answer", "app.query.late_answer"}
+\* steps that only lead somewhere (the same request kind is attacked at another position)
+Passage == {"app.page1", "conc.execute1"}
 
 \* ------------------------------------------------------------------ the frames the adversary answers with
 Mk(kind, b) == Frame(Env(kind, PV, 0, 0, 0, b))
 Col(name, t) == [ks |-> S_ks1, table |-> S_t1, name |-> name, type |-> t]
 RowsInt == [meta |-> MkMeta(<<TInt>>, TRUE, FALSE, FALSE), rows |-> <<<<CInt(7)>>, <<CInt(-1)>>>>]
 RowsTwo == [meta |-> MkMeta(<<TText, TyList(TInt)>>, FALSE, FALSE, FALSE), rows |-> <<<<CText(S_hello), CListInt(PV, <<1, 2>>)>>>>]
+Tup3 == TyTuple(<<TInt, TInt, TInt>>)
+RowsTuple3 == [meta |-> MkMeta(<<Tup3>>, TRUE, FALSE, FALSE), rows |-> <<<<CTuple(<<CInt(1), CInt(2), CInt(3)>>)>>>>]
+RowsIntTuple == [meta |-> MkMeta(<<TInt, TyTuple(<<TInt, TText>>)>>, TRUE, FALSE, FALSE), rows |-> <<<<CInt(5), CTuple(<<CInt(1), CText(S_a)>>)>>>>]
+RowsNoCols == [meta |-> MkMeta(<<>>, FALSE, FALSE, FALSE), rows |-> <<>>]
+RowsMore == [meta |-> MkMeta(<<TInt>>, TRUE, TRUE, FALSE), rows |-> <<<<CInt(8)>>>>]
 Prepared(nbind) == [id |-> <<9, 9>>, pk |-> <<>>, req |-> MkMeta([i \in 1 .. nbind |-> TInt], TRUE, FALSE, FALSE), res |-> MkMeta(<<TInt>>, TRUE, FALSE, FALSE)]
 \* one bind marker announced, its specification skipped (the no_metadata flag is defined for every metadata block)
 PreparedNoMeta == [Prepared(1) EXCEPT !.req = MkMeta(<<TInt>>, FALSE, FALSE, TRUE)]
@@ -118,6 +144,10 @@ WellFormedVariants == <<
   Variant("RESULT_VOID", "RESULT_VOID", Mk("RESULT_VOID", [x |-> 0])),
   Variant("RESULT_ROWS", "RESULT_ROWS", Mk("RESULT_ROWS", RowsInt)),
   Variant("RESULT_ROWS_2COL", "RESULT_ROWS", Mk("RESULT_ROWS", RowsTwo)),
+  Variant("RESULT_ROWS_TUPLE3", "RESULT_ROWS", Mk("RESULT_ROWS", RowsTuple3)),
+  Variant("RESULT_ROWS_INT_TUPLE", "RESULT_ROWS", Mk("RESULT_ROWS", RowsIntTuple)),
+  Variant("RESULT_ROWS_NOCOLS", "RESULT_ROWS", Mk("RESULT_ROWS", RowsNoCols)),
+  Variant("RESULT_ROWS_MORE_PAGES", "RESULT_ROWS", Mk("RESULT_ROWS", RowsMore)),
   Variant("RESULT_KEYSPACE", "RESULT_KEYSPACE", Mk("RESULT_KEYSPACE", [ks |-> S_ks1])),
   Variant("RESULT_PREPARED", "RESULT_PREPARED", Mk("RESULT_PREPARED", Prepared(1))),
   Variant("RESULT_PREPARED_2BIND", "RESULT_PREPARED", Mk("RESULT_PREPARED", Prepared(2))),
@@ -135,8 +165,8 @@ WellFormedVariants == <<
 
 \* malformed frames at the positions they belong to (same mutations as Gen_Malformed: one
 \* length / count field replaced, or the body cut and the header's length adjusted)
-Replace(bytes, off, nb) == SubSeq(bytes, 1, off) \o nb \o SubSeq(bytes, off + Len(nb) + 1, Len(bytes))
-CutBody(bytes, t) == Replace(SubSeq(bytes, 1, t), 5, Int32(t - 9))
+ReplaceAt(bytes, off, nb) == SubSeq(bytes, 1, off) \o nb \o SubSeq(bytes, off + Len(nb) + 1, Len(bytes))
+CutBody(bytes, t) == ReplaceAt(SubSeq(bytes, 1, t), 5, Int32(t - 9))
 EvTopo == Mk("EVENT_TOPOLOGY", Ev2(S_NEW_NODE))
 \* PREPARED v4: header 9, kind 4, id [short bytes] 2+2, flags 4, colcount 4, pkcount at 9+4+4+8 = 25
 PrepPkOff == 25
@@ -144,10 +174,10 @@ RowsCountOff(bytes) == Len(bytes) - 4 - (2 * 8)      \* RowsInt: two rows of one
 Malformed == <<
   \* the [inet] announces 4 address bytes, the body ends after 2 of them
   [n |-> "MAL_EVENT_SHORT_INET", kind |-> "EVENT_TOPOLOGY", bytes |-> CutBody(EvTopo, Len(EvTopo) - 6), at |-> {"unsolicited.event", "unsolicited.stream0"}],
-  [n |-> "MAL_PREPARED_NEGATIVE_PKCOUNT", kind |-> "RESULT_PREPARED", bytes |-> Replace(Mk("RESULT_PREPARED", Prepared(1)), PrepPkOff, Int32(-1)),
+  [n |-> "MAL_PREPARED_NEGATIVE_PKCOUNT", kind |-> "RESULT_PREPARED", bytes |-> ReplaceAt(Mk("RESULT_PREPARED", Prepared(1)), PrepPkOff, Int32(-1)),
    at |-> {"app.prepare", "app.batch_prepare", "unsolicited.stream0"}],
   \* the row count says 3, the body holds 2 rows
-  [n |-> "MAL_ROWS_SHORT", kind |-> "RESULT_ROWS", bytes |-> Replace(Mk("RESULT_ROWS", RowsInt), RowsCountOff(Mk("RESULT_ROWS", RowsInt)), Int32(3)),
+  [n |-> "MAL_ROWS_SHORT", kind |-> "RESULT_ROWS", bytes |-> ReplaceAt(Mk("RESULT_ROWS", RowsInt), RowsCountOff(Mk("RESULT_ROWS", RowsInt)), Int32(3)),
    at |-> {"app.query", "app.execute", "ctl.query_local", "ctl.refresh_peers"}] >>
 
 \* ------------------------------------------------------------------ rows of the system tables with ONE column off
@@ -201,6 +231,36 @@ SysPositions == {"ctl.query_local", "ctl.refresh_local", "ctl.refresh_peers"}
 \* (plus-native-port only once per value: i = 1 (port 1000), 2 (2000))
 SysWanted(i, k) == k # "plus-native-port" \/ i <= 2
 
+\* ------------------------------------------------------------------ Gen_Malformed's mutations as live answers
+\* the answer the protocol lets the driver expect at a position (as a logical record)
+L(kind, b) == Env(kind, PV, 0, 0, 0, b)
+SaneSysRow == [meta |-> [global |-> TRUE, more |-> FALSE, nometa |-> FALSE, paging |-> <<>>, gks |-> N_system, gtable |-> N_peers,
+                         cols |-> [j \in 1 .. Len(SysCols) |-> [ks |-> N_system, table |-> N_peers, name |-> SysCols[j].n, type |-> SysCols[j].t]]],
+               rows |-> <<[j \in 1 .. Len(SysCols) |-> COpaque(SysCols[j].v)]>>]
+ExpectedAnswer(pos) ==
+  CASE pos \in {"ctl.options", "pool.options", "pool.heartbeat", "ctl.conn_heartbeat", "ctl.heartbeat"} -> L("SUPPORTED", [opts |-> <<[k |-> S_CQL_VERSION, vals |-> <<S_3_4_5>>]>>])
+    [] pos \in {"ctl.startup", "pool.startup", "ctl.register"} -> L("READY", [x |-> 0])
+    [] pos \in {"ctl.query_local", "ctl.refresh_local", "ctl.refresh_peers"} -> L("RESULT_ROWS", SaneSysRow)
+    [] pos \in {"app.query", "app.batch"} -> L("RESULT_VOID", [x |-> 0])
+    [] pos \in {"app.prepare", "app.batch_prepare", "app.prepare2"} -> L("RESULT_PREPARED", Prepared(1))
+    [] pos \in {"app.execute", "app.execute2", "app.page2", "conc.execute2"} -> L("RESULT_ROWS", RowsInt)
+    [] OTHER -> L("READY", [x |-> 0])
+MutPositionsQuick == {"pool.startup", "ctl.query_local", "ctl.register", "app.query", "app.prepare", "app.execute", "app.batch",
+                      "app.page2", "pool.heartbeat", "ctl.heartbeat"}
+MutPositions == IF Tier = "thorough"
+                THEN MutPositionsQuick \cup {"ctl.options", "ctl.startup", "pool.options", "ctl.refresh_local", "ctl.refresh_peers", "ctl.conn_heartbeat",
+                                             "app.batch_prepare", "app.prepare2", "app.execute2", "conc.execute2"}
+                ELSE MutPositionsQuick
+LiveBase(l) == LET segs == AFrame(l)
+               IN [Blank EXCEPT !.t = "base", !.kind = l.kind, !.v = l.v, !.bytes = Bytes(segs), !.hs = 9, !.fields = FieldsFrom(segs, 1, 0)]
+\* every mutation of a header field; of the body fields the small and the [short]-sized values (the
+\* megabyte-sized ones are the framer-level family's: no address-space limit on the live children)
+BodyToo(b) == Tier = "thorough" \/ Len(b.fields) <= 40          \* (quick: a long frame gets the header mutations only)
+LiveMuts(b) == {m \in FieldMuts(b, FALSE) : m.off < b.hs \/ (BodyToo(b) /\ m.mk \in {"len", "cnt", "code", "flags", "name"} /\ (m.val \in -2 .. 64 \/ m.val \in {88, 32767, 32768, 65535}))}
+\* the body cut at every field boundary (the header says so)
+LiveCuts(b) == {b.fields[i].off : i \in {j \in 1 .. Len(b.fields) : BodyToo(b) \/ j % 8 = 0}} \cap (b.hs .. Len(b.bytes) - 1)
+MutName(m) == "MUT_" \o m.mk \o "_" \o m.f \o "_" \o ToString(m.val)
+
 Kinds == {WellFormedVariants[i].kind : i \in 1 .. Len(WellFormedVariants)}
 
 \* ------------------------------------------------------------------ states
@@ -213,7 +273,11 @@ PNext ==
   /\ p.t = "run"
   /\ \/ \E a \in Legit(p.cfg, p.pos) : p' = Run(p.cfg, a[2])                  \* the node answers as the protocol says
      \/ p.pos = "idle" /\ \E q \in FromIdle : p' = Run(p.cfg, q)             \* the session goes on
-     \/ /\ p.pos # "idle" /\ Wanted(p.cfg, p.pos)                            \* the node answers with any kind
+     \/ /\ p.pos \in MutPositions /\ p.cfg = "plain"                         \* the node answers with a malformed frame
+        /\ LET b == LiveBase(ExpectedAnswer(p.pos))
+           IN \/ \E m \in LiveMuts(b) : p' = CaseOf(p, MutName(m), b.kind, ApplyField(b, m).bytes)
+              \/ \E t \in LiveCuts(b) : p' = CaseOf(p, "MUT_trunc-body_" \o ToString(t), b.kind, TruncBody(b, t).bytes)
+     \/ /\ p.pos # "idle" /\ p.pos \notin Passage /\ Wanted(p.cfg, p.pos)       \* the node answers with any kind
         /\ \/ \E i \in 1 .. Len(WellFormedVariants) :
                 p' = CaseOf(p, WellFormedVariants[i].n, WellFormedVariants[i].kind, WellFormedVariants[i].bytes)
            \/ \E i \in 1 .. Len(Malformed) :
@@ -223,7 +287,7 @@ PNext ==
                 /\ p' = CaseOf(p, "SYSROW_" \o ToString(i) \o "_" \o SysAlterations[k], "RESULT_ROWS", SysFrame(i, SysAlterations[k]))
 
 \* every position is reachable and every (position, kind) pair is generated (checked on the cases by the check)
-EmitCase ==
+EmitLive ==
   p.t = "case" =>
     PrintT("CASE " \o ToJson([cfg |-> p.cfg, pos |-> p.pos, req |-> p.req, variant |-> p.variant, kind |-> p.kind,
                               expected |-> p.expected, bytes |-> p.bytes]))
